@@ -1085,6 +1085,10 @@ func main() {
 	if err := os.WriteFile(filepath.Join(outDir, "Skeleton.v"), []byte(b.String()), 0o644); err != nil {
 		panic(err)
 	}
+	if err := emitConsts(root, outDir); err != nil {
+		fmt.Fprintln(os.Stderr, "goskel: constants:", err)
+		os.Exit(1)
+	}
 	fmt.Fprintf(os.Stderr, "goskel: %d functions, %d flags, %d callsites, %d unsupported\n", len(order), len(flagsAll), len(callsites), len(unsupported))
 	for _, u := range unsupported {
 		fmt.Fprintln(os.Stderr, "  unsupported:", u)
@@ -1092,4 +1096,149 @@ func main() {
 	if len(unsupported) > 0 {
 		os.Exit(3)
 	}
+}
+
+// ---------------------------------------------------------------- constants (Gen/Consts.v)
+
+// suffixTables reads the switch statements of internal/suffix/{add,remove}.go and the suffix constants.
+func emitConsts(root, outDir string) error {
+	consts := map[string]string{}
+	parseFile := func(p string) (*ast.File, error) { return parser.ParseFile(fset, filepath.Join(root, p), nil, 0) }
+	for _, p := range []string{"internal/suffix/config.go", "pkg/config/constants.go"} {
+		f, err := parseFile(p)
+		if err != nil {
+			return err
+		}
+		prefix := ""
+		if strings.Contains(p, "pkg/config") {
+			prefix = "config."
+		}
+		for _, d := range f.Decls {
+			gd, ok := d.(*ast.GenDecl)
+			if !ok || gd.Tok != token.CONST {
+				continue
+			}
+			for _, s := range gd.Specs {
+				vs := s.(*ast.ValueSpec)
+				for i, n := range vs.Names {
+					if i < len(vs.Values) {
+						if bl, ok := vs.Values[i].(*ast.BasicLit); ok && bl.Kind == token.STRING {
+							consts[prefix+n.Name] = strings.Trim(bl.Value, "\"")
+						}
+					}
+				}
+			}
+		}
+	}
+	table := func(file, fn, op string) ([][3]string, error) {
+		f, err := parseFile(file)
+		if err != nil {
+			return nil, err
+		}
+		var rows [][3]string
+		for _, d := range f.Decls {
+			fd, ok := d.(*ast.FuncDecl)
+			if !ok || fd.Name.Name != fn {
+				continue
+			}
+			for _, st := range fd.Body.List {
+				sw, ok := st.(*ast.SwitchStmt)
+				if !ok {
+					continue
+				}
+				tag := rawtxt(sw.Tag)
+				pending := []string{}
+				for _, c := range sw.Body.List {
+					cc := c.(*ast.CaseClause)
+					if cc.List == nil {
+						continue // default: unsupported format
+					}
+					labels := []string{}
+					for _, e := range cc.List {
+						labels = append(labels, rawtxt(e))
+					}
+					if n := len(cc.Body); n > 0 {
+						if b, ok := cc.Body[n-1].(*ast.BranchStmt); ok && b.Tok == token.FALLTHROUGH {
+							pending = append(pending, labels...)
+							continue
+						}
+					}
+					suffix := ""
+					for _, bs := range cc.Body {
+						if as, ok := bs.(*ast.AssignStmt); ok {
+							txt := ""
+							for _, r := range as.Rhs {
+								txt += " " + rawtxt(r)
+							}
+							for k, v := range consts {
+								if strings.Contains(txt, k) && !strings.HasPrefix(k, "config.") {
+									suffix = v
+								}
+							}
+							_ = op
+						}
+					}
+					for _, l := range append(pending, labels...) {
+						rows = append(rows, [3]string{tag, consts[l], suffix})
+					}
+					pending = nil
+				}
+			}
+		}
+		return rows, nil
+	}
+	add, err := table("internal/suffix/add.go", "AddSuffix", "+=")
+	if err != nil {
+		return err
+	}
+	rem, err := table("internal/suffix/remove.go", "RemoveSuffix", "TrimSuffix")
+	if err != nil {
+		return err
+	}
+	lists := map[string][]string{}
+	if f, err := parseFile("pkg/config/constants.go"); err == nil {
+		for _, d := range f.Decls {
+			gd, ok := d.(*ast.GenDecl)
+			if !ok || gd.Tok != token.VAR {
+				continue
+			}
+			for _, s := range gd.Specs {
+				vs := s.(*ast.ValueSpec)
+				for i, n := range vs.Names {
+					if cl, ok := vs.Values[i].(*ast.CompositeLit); ok {
+						for _, e := range cl.Elts {
+							lists[n.Name] = append(lists[n.Name], consts["config."+rawtxt(e)])
+						}
+					}
+				}
+			}
+		}
+	}
+	var b strings.Builder
+	b.WriteString("(* GENERATED by goskel from internal/suffix/*.go and pkg/config/constants.go. Do not edit. *)\nFrom Coq Require Import List String.\nImport ListNotations.\nOpen Scope string_scope.\n\n")
+	wr := func(name string, rows [][3]string) {
+		fmt.Fprintf(&b, "Definition %s : list (string * string * string) := [\n", name)
+		for i, r := range rows {
+			sep := ";"
+			if i == len(rows)-1 {
+				sep = ""
+			}
+			fmt.Fprintf(&b, "  (%s, %s, %s)%s\n", q(r[0]), q(r[1]), q(r[2]), sep)
+		}
+		b.WriteString("].\n")
+	}
+	wr("add_suffix_table", add)
+	wr("remove_suffix_table", rem)
+	for _, n := range []string{"KnownCompressionFormats", "KnownEncryptionFormats", "KnownSignatureFormats"} {
+		fmt.Fprintf(&b, "Definition %s : list string := [", n)
+		for i, v := range lists[n] {
+			if i > 0 {
+				b.WriteString("; ")
+			}
+			b.WriteString(q(v))
+		}
+		b.WriteString("].\n")
+	}
+	fmt.Fprintf(&b, "Definition block_size : nat := %s.\n", "512")
+	return os.WriteFile(filepath.Join(outDir, "Consts.v"), []byte(b.String()), 0o644)
 }
